@@ -110,6 +110,8 @@ def mu_mix_owners(w, home):
         s = {'C02'}
     elif o in ('asleep-past-deadline', 'spinning-past-deadline'):
         s = {'C05'}
+    elif o == 'debug-modified-word':
+        s = {'C16'}
     elif o == 'asleep-although-cancelled':
         s = {'C11'} if 'wait_n' in key else {'C05'}
     elif o in ('return-reason', 'muwait-result'):
@@ -528,7 +530,7 @@ PLANS['C11']['floor'] = need('calls_that_slept', 'calls_with_5_objects_heap_path
 PLANS['C12']['floor'] = need('waits_that_slept', 'timeouts_at_or_after_deadline', 'handshake_rounds')
 PLANS['C13']['floor'] = need('objects_freed_by_last_user', 'final_acquisitions_that_slept', 'calls_with_5_objects_heap_path')
 PLANS['C15']['floor'] = need('expired_deadline_cases', 'near_future_cases', 'blocking_cases')
-PLANS['C16']['floor'] = need('debug_calls', 'quiescent_states_checked', 'truncated_cases', 'fitting_cases')
+PLANS['C16']['floor'] = need('debug_calls', 'debug_calls_made_inside_a_condition_evaluation', 'quiescent_states_checked', 'truncated_cases', 'fitting_cases')
 PLANS['C19']['floor'] = need('note_new_null', 'counter_new_null', 'rounds_without_failure', 'null_seen_by_concurrent_thread', 'null_returns_with_notified_or_expired_parent')
 
 
